@@ -27,10 +27,12 @@ def quantile_case(m, x, w, alpha):
         return 'result %r is not an element of the sample' % q
     le = wn[x <= q].sum()
     lt = wn[x < q].sum()
-    if le < alpha - TOL:
-        return 'weight of values <= q is %.12g < alpha' % le
-    if lt > alpha + TOL:
-        return 'weight of values < q is %.12g > alpha' % lt
+    # relative tolerance: alpha may sit exactly on a cumulative boundary computed in floats, but a tiny positive alpha
+    # must not be swallowed by an absolute tolerance
+    if le < alpha * (1 - 1e-9) - 1e-15:
+        return 'weight of values <= q is %.12g < alpha = %.12g' % (le, alpha)
+    if lt > alpha * (1 + 1e-9) + 1e-15:
+        return 'weight of values < q is %.12g > alpha = %.12g' % (lt, alpha)
     return None
 
 
@@ -49,7 +51,7 @@ def run_quantile(tier, seed, stop_first=True):
                 ww = np.ones(n) if w is None else np.asarray(w, float)
                 order = np.argsort(np.asarray(x))
                 cum = np.cumsum(ww[order] / ww.sum())
-                alphas = sorted(set([0.0, 1.0, 0.3, 0.5] + [float(c) for c in cum]))
+                alphas = sorted(set([0.0, 1e-12, 1e-9, 1e-7, 1.0, 0.3, 0.5, 1 - 1e-9] + [float(c) for c in cum]))
                 prev = None
                 for a in alphas:
                     if not 0 <= a <= 1:
@@ -175,6 +177,24 @@ def run_mixture(tier, seed, stop_first=True):
             fails.append(dict(signature='c13:mixture', what=f, input=dict(fn='mixture', t=t, seed=seed)))
             if stop_first:
                 break
+    # a constraint with a very low acceptance rate: the sampler must still return exactly `size` valid points
+    for t in range(2 if tier == 'quick' else 6):
+        cases += 1
+        nontriv += 1
+        try:
+            with native.time_limit(60):
+                thr = 3.3
+                draws = GM.rvs(np.array([0.0, 0.5]), cov=1.0, weights=np.array([1.0, 1.0]), size=12, random_state=np.random.RandomState(seed + 100 + t),
+                               prior_logpdf=(lambda x: np.where(x > thr, 0.0, -np.inf)))
+            if len(draws) != 12 or not np.all(draws > thr):
+                fails.append(dict(signature='c13:mixture', what='constrained sampler with a rare constraint returned %d points, %d violating it' % (len(draws), int(np.sum(~(draws > thr)))),
+                                  input=dict(fn='mixture-rare', t=t, seed=seed)))
+                if stop_first:
+                    break
+        except native.NativeTimeout:
+            pass
+        except Exception as e:
+            fails.append(dict(signature='c13:mixture', what='%s: %s' % (type(e).__name__, e), input=dict(fn='mixture-rare', t=t, seed=seed)))
     return _res('GMDistribution pdf/logpdf/rvs', '%d random mixtures, 1-2 dims, <= 3 components' % (12 if tier == 'quick' else 120), cases, nontriv, fails)
 
 
